@@ -94,12 +94,13 @@ Proof.
   repeat case_bool_decide; intros Hk; [injection Hk as <-; lia|discriminate|exact (HB _ _ Hk)].
 Qed.
 
-Lemma Bnd_papply i p s : Bnd i s -> pvalid i p s -> Bnd i (papply i p s).
+Lemma Bnd_papply' i p s :
+  Bnd i s -> (forall k e, p = PKvPut k e -> kv_modify e = i) -> Bnd i (papply i p s).
 Proof.
   intros [H1 H2 H3] Hv. split.
   - apply IdxBnd_papply, H1.
   - intros k e. rewrite kvs_papply. destruct p; cbn [kvs_after]; try (apply H2).
-    + intros Hk. apply lookup_insert_Some in Hk as [[_ <-]|[_ Hk]]; [cbn in Hv; lia|exact (H2 _ _ Hk)].
+    + intros Hk. apply lookup_insert_Some in Hk as [[_ <-]|[_ Hk]]; [rewrite (Hv _ _ eq_refl); lia|exact (H2 _ _ Hk)].
     + intros Hk. apply lookup_delete_Some in Hk as [_ Hk]. exact (H2 _ _ Hk).
     + intros Hk. apply map_filter_lookup_Some in Hk as [Hk _]. exact (H2 _ _ Hk).
     + intros Hk. apply lookup_fmap_Some in Hk as (e0 & <- & Hk).
@@ -113,6 +114,9 @@ Proof.
       apply lookup_fmap_Some in Hk as (e0 & <- & _). lia.
     + intros Hk. apply map_filter_lookup_Some in Hk as [Hk _]. exact (H3 _ _ Hk).
 Qed.
+
+Lemma Bnd_papply i p s : Bnd i s -> pvalid i p s -> Bnd i (papply i p s).
+Proof. intros HB Hv. apply Bnd_papply'; [exact HB|]. intros k e ->. exact Hv. Qed.
 
 Lemma Bnd_prun i ps s : Bnd i s -> Valid i ps s -> Bnd i (prun i ps s).
 Proof.
@@ -541,3 +545,92 @@ Section traces3.
       destruct rs; [discriminate|]. injection Ht as <-. apply E. repeat constructor.
   Qed.
 End traces3.
+
+(* ---------- only the delete-tree command runs the delete-tree primitive ---------- *)
+Definition notree (p : prim) : Prop := match p with PKvDelTree _ => False | _ => True end.
+Lemma light_notree p : light p -> notree p. Proof. destruct p; cbn; tauto. Qed.
+
+Section traces4.
+  Context (i : N).
+  Lemma kvs_set_notree k v f se lk upd s : Forall notree (kvs_set i k v f se lk upd s).
+  Proof. unfold kvs_set. destruct (kvs s !! k); [destruct (kv_same _ _)|]; repeat constructor. Qed.
+  Lemma delete_session_notree sid s : Forall notree (delete_session i sid s).
+  Proof. eapply Forall_impl; [apply delete_session_light|apply light_notree]. Qed.
+  Lemma delete_check_notree n cid s : Forall notree (delete_check i n cid s).
+  Proof.
+    unfold delete_check. destruct (checks s !! (n, cid)); [|constructor].
+    unfold seq. apply Forall_app. split; [repeat constructor|].
+    apply seq_all_Forall. intros. apply delete_session_notree.
+  Qed.
+  Lemma delete_service_notree n sid s : Forall notree (delete_service i n sid s).
+  Proof.
+    unfold delete_service. destruct (services s !! (n, sid)); [|constructor].
+    unfold seq. apply Forall_app. split; [|repeat constructor].
+    apply seq_all_Forall. intros. apply delete_check_notree.
+  Qed.
+  Lemma ensure_check_notree n cs s ps : ensure_check i n cs s = Some ps -> Forall notree ps.
+  Proof.
+    intros H. destruct (ensure_check_shape i _ _ _ _ H) as (a & b & hc & -> & Ha & Hb).
+    apply Forall_app. split; [eapply Forall_impl; [exact Ha|apply light_notree]|].
+    destruct Hb as [->|(-> & _)]; repeat constructor.
+  Qed.
+  Lemma checks_loop_notree n cks s ps :
+    oseq_all i (fun cs => ensure_check i n cs) cks s = Some ps -> Forall notree ps.
+  Proof.
+    revert s ps. induction cks as [|cs cks IH]; intros s ps; cbn [oseq_all].
+    - intros [= <-]. constructor.
+    - unfold oseq. destruct (ensure_check i n cs s) as [pa|] eqn:Ea; [|discriminate].
+      destruct (oseq_all i _ cks (prun i pa s)) as [pb|] eqn:Eb; [|discriminate].
+      intros [= <-]. apply Forall_app. split; [eapply ensure_check_notree, Ea|eapply IH, Eb].
+  Qed.
+
+  Lemma trace_notree c s ps :
+    trace i c s = Some ps -> (forall p', c <> KVDeleteTree p') -> Forall notree ps.
+  Proof.
+    intros Ht Hc. destruct c; cbn [trace] in Ht.
+    - injection Ht as <-. apply kvs_set_notree.
+    - injection Ht as <-. unfold kvs_delete. destruct (kvs s !! k); repeat constructor.
+    - exfalso. eapply Hc. reflexivity.
+    - injection Ht as <-. unfold kvs_set_cas.
+      destruct (kvs s !! k); repeat (destruct (bool_decide _)); try constructor; apply kvs_set_notree.
+    - injection Ht as <-. unfold kvs_delete_cas. destruct (kvs s !! k); [destruct (bool_decide _)|]; repeat constructor.
+    - injection Ht as <-. unfold kvs_lock. destruct (bool_decide (sid = "")); [constructor|].
+      destruct (sessions s !! sid); [|constructor].
+      destruct (kvs s !! k); repeat (destruct (bool_decide _)); try constructor; apply kvs_set_notree.
+    - injection Ht as <-. unfold kvs_unlock. destruct (bool_decide (sid = "")); [constructor|].
+      destruct (kvs s !! k); repeat (destruct (bool_decide _)); try constructor; apply kvs_set_notree.
+    - injection Ht as <-. repeat constructor.
+    - unfold session_create in Ht. destruct (nodes s !! n); [|discriminate].
+      destruct (forallb _ _); [|discriminate]. injection Ht as <-. repeat constructor.
+    - injection Ht as <-. apply delete_session_notree.
+    - injection Ht as <-. unfold ensure_node. destruct (nodes s !! n); [destruct (bool_decide _)|]; repeat constructor.
+    - unfold ensure_service in Ht. destruct (nodes s !! n); [|discriminate].
+      destruct (services s !! _); [destruct (same_service _ _)|]; injection Ht as <-; repeat constructor.
+    - eapply ensure_check_notree, Ht.
+    - unfold oseq in Ht.
+      destruct (match sp with Some sp0 => ensure_service i n sp0 _ | None => Some [] end) as [pb|] eqn:Eb; [|discriminate].
+      destruct (oseq_all i _ cks _) as [pc|] eqn:Ec; [|discriminate]. injection Ht as <-.
+      apply Forall_app. split.
+      { unfold ensure_node. destruct (nodes s !! n); [destruct (bool_decide _)|]; repeat constructor. }
+      apply Forall_app. split; [|eapply checks_loop_notree, Ec].
+      destruct sp as [sp0|]; [|injection Eb as <-; constructor].
+      unfold ensure_service in Eb. destruct (nodes _ !! n); [|discriminate].
+      destruct (services _ !! _); [destruct (same_service _ _)|]; injection Eb as <-; repeat constructor.
+    - injection Ht as <-. unfold delete_node. destruct (nodes s !! n); [|constructor]. unfold seq.
+      repeat (apply Forall_app; split); try (repeat constructor).
+      + apply Forall_fmap, Forall_forall. intros; exact I.
+      + apply seq_all_Forall. intros. apply delete_service_notree.
+      + apply seq_all_Forall. intros. apply delete_check_notree.
+      + destruct (coords _ !! n); repeat constructor.
+      + apply seq_all_Forall. intros. apply delete_session_notree.
+    - injection Ht as <-. apply delete_service_notree.
+    - injection Ht as <-. apply delete_check_notree.
+    - destruct (nodes s !! n); injection Ht as <-; repeat constructor.
+    - injection Ht as <-. repeat constructor.
+    - destruct (cfgs s !! (kind, name)); injection Ht as <-; repeat constructor.
+    - destruct (_ || _); [|discriminate]. injection Ht as <-. repeat constructor.
+    - destruct (pqs s !! id); injection Ht as <-; repeat constructor.
+    - destruct (bool_decide _); [|injection Ht as <-; constructor].
+      destruct rs; [discriminate|]. injection Ht as <-. repeat constructor.
+  Qed.
+End traces4.
